@@ -512,6 +512,29 @@ func (e *Effects) loopMods(fv *FnV, nodes []ast.Node) *modSet {
 	tmp := &FuncEffects{Writes: map[string]bool{}, ParamWrites: map[int]bool{}, Globals: map[string]bool{}, Calls: map[string]bool{}, paramObjs: map[types.Object]int{},
 		WriteSites: map[int][]string{}, GlobalSites: map[string][]string{}}
 	markVar := func(x ast.Expr) {
+		// a write that goes through a heap pointer changes the heap, not the root variable
+		for y := ast.Unparen(x); ; {
+			var inner ast.Expr
+			switch z := y.(type) {
+			case *ast.SelectorExpr:
+				inner = z.X
+			case *ast.IndexExpr:
+				inner = z.X
+			case *ast.StarExpr:
+				inner = z.X
+			case *ast.SliceExpr:
+				inner = z.X
+			case *ast.ParenExpr:
+				inner = z.X
+			}
+			if inner == nil {
+				break
+			}
+			if tv, ok := info.Types[inner]; ok && tv.Type != nil && e.smt.isHeapPtr(tv.Type) {
+				return
+			}
+			y = ast.Unparen(inner)
+		}
 		if id := rootIdent(x); id != nil {
 			obj := info.Uses[id]
 			if obj == nil {
